@@ -457,6 +457,91 @@ def gen_c12_pairs(n, seed):
     return [pairs_script(i, a, b, rng.randint(0, 1)) for (i, a, b) in space]
 
 
+def persist_pairs_script(initial, w1, w2, mode):
+    """Persistence counterpart of pairs_script: tree T1 holds `initial`; ONE transaction performs the two writes
+    with no query in between (a query would freeze the nodes it owns) and is committed (mode 0), abandoned (1),
+    or cloned after the first write, the second write going to a transaction started from the clone (2: the clone,
+    the original transaction and the tree it commits must not see that write).  Afterwards every key of the
+    universe, every prefix and a full scan are read from T1 again, and from every other tree that exists."""
+    ps = PartScript(random.Random(0))
+    t0 = ps.new_tree_id()
+    ps.add(op="new", t=t0, ro=False)
+    x = ps.new_txn_id()
+    ps.add(op="begin", x=x, t=t0, lin=False)
+    for k in initial:
+        ps.add(op="insert", x=x, k=k, v=1, w=0)
+    t1 = ps.new_tree_id()
+    ps.add(op="commit", x=x, t=t1)
+    srcs = [tree_src(t1)]
+
+    def wr(xx, w):
+        kind, k = w
+        if kind == "i":
+            ps.add(op="insert", x=xx, k=k, v=2, w=0)
+        elif kind == "m":
+            ps.add(op="modify", x=xx, k=k, v=3, w=0)
+        else:
+            ps.add(op="delete", x=xx, k=k)
+
+    x = ps.new_txn_id()
+    ps.add(op="begin", x=x, t=t1, lin=False)
+    wr(x, w1)
+    if mode == 2:
+        c = ps.new_tree_id()
+        ps.add(op="clone", x=x, t=c)
+        srcs.append(tree_src(c))
+        y = ps.new_txn_id()
+        ps.add(op="begin", x=y, t=c, lin=False)
+        wr(y, w2)
+        # the clone and the original transaction, read while the derived transaction is pending
+        for k in PAIR_UNIVERSE:
+            ps.add(op="get", s=tree_src(c), k=k, w=0)
+        ps.add(op="all", s=tree_src(c))
+        ps.add(op="len", s=tree_src(c))
+        ps.add(op="all", s=txn_src(x))
+        t3 = ps.new_tree_id()
+        ps.add(op="commit", x=y, t=t3)
+        srcs.append(tree_src(t3))
+        t2 = ps.new_tree_id()
+        ps.add(op="commit", x=x, t=t2)
+        srcs.append(tree_src(t2))
+    else:
+        wr(x, w2)
+        if mode == 0:
+            t2 = ps.new_tree_id()
+            ps.add(op="commit", x=x, t=t2)
+            srcs.append(tree_src(t2))
+        else:
+            ps.add(op="abandon", x=x)
+    for src in srcs:
+        for k in PAIR_WATCH:
+            ps.add(op="get", s=src, k=k, w=0)
+        for k in ([1, 1], [1, 1, 2], [1], []):
+            f = ps.new_iter_id()
+            ps.add(op="prefix", s=src, k=k, f=f, w=0)
+        f = ps.new_iter_id()
+        ps.add(op="lowerbound", s=src, k=[1, 1, 2], f=f)
+        ps.add(op="all", s=src)
+        ps.add(op="len", s=src)
+    return ps.ops
+
+
+def gen_c11_pairs(n, seed):
+    """Bounded-exhaustive like gen_c12_pairs, with Modify as a third kind of write and the three endings."""
+    rng = random.Random(seed)
+    writes = [(kd, k) for kd in ("i", "d", "m") for k in PAIR_UNIVERSE + [[1, 1, 2, 9]]]
+    space = []
+    for mask in range(1, 1 << len(PAIR_UNIVERSE)):
+        initial = [PAIR_UNIVERSE[i] for i in range(len(PAIR_UNIVERSE)) if mask >> i & 1]
+        for w1 in writes:
+            for w2 in writes:
+                for mode in (0, 1, 2):
+                    space.append((initial, w1, w2, mode))
+    if n < len(space):
+        space = rng.sample(space, n)
+    return [persist_pairs_script(i, a, b, m) for (i, a, b, m) in space]
+
+
 def boundary_script(n, victim, leaf, edge, prefix, watch, rng):
     """One node with n children (branch bytes spread over 0..255, the ends 0x00 and 0xff included when `edge`),
     optionally holding a value itself; one committed transaction removes the child at position `victim`
@@ -547,6 +632,8 @@ def gen_boundary(n, seed, watch=False):
 def generate(kind, n, seed):
     if kind == "c12pairs":
         return gen_c12_pairs(n, seed)
+    if kind == "c11pairs":
+        return gen_c11_pairs(n, seed)
     if kind == "boundary":
         return gen_boundary(n, seed)
     if kind == "boundaryw":
